@@ -38,6 +38,7 @@ def sym_field(E, ndim, nvdim, prefix='f', mesh=None, vdims='default', mapping='d
         mp = dict(mapping)
     f = Obj('Field', {'_mesh': mesh, '_nvdim': nvdim, 'dtype': dtype, '_unit': unit, '_valid': val, '_array': arr,
                       '_vdims': list(vd) if vd is not None else None, '_vdim_mapping': mp})
+    f.modelled_state = True
     return f, assume
 
 
